@@ -2505,7 +2505,7 @@ pub fn compile<I: BufRead, O: Write>(
     state.variables.insert(
         "DUMMY".to_string(),
         Variable {
-            order: state.variables.len(),
+            order: state.next_variable_order(),
             signed: false,
             memory: VariableMemory::Zeropage,
             var_const: true,
